@@ -39,14 +39,14 @@ CLAIMS = {
         note=('Trusted: source heap/malloc return fresh objects (assumed contracts), alignment relative to the chunk start, PerBackend rely on nextLoc (<= 511 threads) and free-list stub invariant, heap-table stub. '
               'Not decided: concurrent use of shared heaps, NUMA large arrays, mmap page pool, clear() list walks, deallocOffset, SizedHeapFactory.')),
     'C14': dict(
-        text=('Proof, per function: MinHeap range constructor/push/pop/top/remove (typestate of the wrapped heap: always a heap for revCmp, std algorithms called with the matching comparator), ThreadSafeMinHeap/ThreadSafeOrderedSet operations (lock discipline); gslist<T,4> (non-concurrent) emplace_front/pop_front/front/empty on the head block and its successor; gdeque<T,4> end operations (push/emplace/pop at both ends, front, back, size, empty, extend_first/last, shrink) as local contracts on the end block, its neighbour and first/last/num; '
+        text=('Proof, per function: flat_map range constructors/resort/emplace/find (typestate: sorted and one entry per key); MinHeap range constructor/push/pop/top/remove (typestate of the wrapped heap: always a heap for revCmp, std algorithms called with the matching comparator), ThreadSafeMinHeap/ThreadSafeOrderedSet operations (lock discipline); gslist<T,4> (non-concurrent) emplace_front/pop_front/front/empty on the head block and its successor; gdeque<T,4> end operations (push/emplace/pop at both ends, front, back, size, empty, extend_first/last, shrink) as local contracts on the end block, its neighbour and first/last/num; '
               'PODResizeableArray<uint8_t|uint64_t> -- constructors, move, destructor, reserve/resize/clear, element access, iterators, push_back (also of an own element), '
               'insert at end, assign, swap -- against the abstract sequence data_[0..size_) (same results as std::vector, every other element kept, block of exactly capacity_ elements, blocks freed once). '
               'And, for ChunkSize in {1,3,4,64}: every non-range operation of FixedSizeRing and its iterator, of FixedSizeBag, and push/pop of ConcurrentFixedSizeBag used from one thread '
               'is extracted from the working tree, lowered to C and verified against an abstract sequence view: results, contents and order are those of the standard container, nothing else changes, '
               'each element is constructed and destroyed exactly once (ghost live bit per slot), ++/-- are mutually inverse and begin()+size() == end() (lemmas over the contracts).'),
         note=('Only the FixedSizeRing.h containers, PODResizeableArray and the end operations of gdeque are claimed: gdeque clear/middle insertion/iterators, concurrent gslist and gslist clear/iterators, MinHeap::find, remove on an empty heap, gslist, FlatMap, LazyArray/optional, priority queues, InsertBag, two-level iterators, LargeArray and '
-              'ring emplace(pos) in the middle are NOT decided. Trusted: realloc/copy_n stubs (probe element), LazyArray slot model, opaque element type, interference stub for the atomic counter, constant-bound quantifier expansion.')),
+              'ring emplace(pos) in the middle are NOT decided. Trusted: std:: algorithm stubs carrying the standard\'s contracts (heap algorithms, sort/unique/lower_bound), realloc/copy_n stubs (probe element), LazyArray slot model, opaque element type, interference stub for the atomic counter, constant-bound quantifier expansion.')),
     'C15': dict(
         text=('Proof, per function: every shipped reducer functor and identity functor (int32/uint32/int64/uint64/float/double) satisfies merge(x,id)=x=merge(id,x) for all (finite) x; '
               'Reducible::merge/update/reduce/reset (reduce = left fold of the per-thread slots, slots re-armed; thread count <= 16 as a configuration bound), GAccumulator +=/-=, '
